@@ -66,8 +66,7 @@ RItem(sec, kv, name, toks, nocase) ==
   IN IF idx = 0 THEN
         IF ~kv THEN RFail
         ELSE (* free-form key: created, then assigned like a string scalar *)
-             LET key == [name |-> name, type |-> "str", flags |-> {}, cb |-> {},
-                         vals |-> <<>>, reset |-> FALSE, mod |-> FALSE, cmt |-> Null]
+             LET key == FreeKey(name)
                  r   == RAssign(key, toks)
              IN IF r.st # "ok" THEN r
                 ELSE ROk([sec EXCEPT !.opts = Append(@, r.sec)], r.rest)
